@@ -221,6 +221,12 @@ func (p *Parser) MergeFile(path string) error {
 		return err
 	}
 
+	// Parents are not followed here, so $parent is ignored: remove it, as
+	// MergeFileLayers does, instead of leaving a stray directive behind.
+	for _, doc := range f.docs {
+		doc.PopMapValue("$parent")
+	}
+
 	return p.mergeFile(f)
 }
 
